@@ -9,5 +9,8 @@ GenNext == Next /\ hist' = Append(hist, obs')
 GenSpec == GenInit /\ [][GenNext]_<<vars, hist>>
 Skel == <<[i \in Slots |-> <<name[i].kind, st[i].max, st[i].len>>],
           {<<i, j>> \in Slots \X Slots : i < j /\ name[i] = name[j]}>>
+(* quick tier: a name obtained by SetSelf from a pattern name is checked where it arises, but is not itself a *)
+(* starting point of further exploration                                                                      *)
+NoDerived == \A i \in Slots : name[i].kind = "text" => name[i].s \in Strings
 Emit == PrintT(<<"BEHAV", ToJson(hist')>>)
 =============================================================================
